@@ -321,7 +321,9 @@ def isolation_case(ctx, env, targets, build, key, rs, fail):
 
     spec = {"env": env, "key": list(key), "rs": list(rs)}
     polluted = isolate.spawn(dict(spec, build=list(build), targets=list(targets)))
-    alone_p = [isolate.spawn(dict(spec, build=[], targets=[t])) for t in targets]
+    # the fresh processes also run under other string-hash salts than this worker (PYTHONHASHSEED 0): a result that
+    # depends on set / dict iteration order of strings differs between two ordinary interpreter runs
+    alone_p = [isolate.spawn(dict(spec, build=[], targets=[t], hashseed=1 + i)) for i, t in enumerate(targets)]
     here = {t: isolate.trace(envs.bundle(env, t), key, rs) for t in targets[:1]}
     res = [isolate.collect(p) for p in [polluted] + alone_p]
     for which, r in zip(["after_others"] + [f"alone:{t}" for t in targets], res):
@@ -341,8 +343,8 @@ def isolation_case(ctx, env, targets, build, key, rs, fail):
                 bad = sorted(k for k in x if x[k] != y.get(k))
                 if bad or set(x) != set(y):
                     kind = "reset" if c == 0 else "step"
-                    fail(f"isolation.{name}", f"{kind} result depends on what the process built before",
-                         f"call #{c} ({kind}) of {t} differs from a process that built nothing else (configurations built "
+                    fail(f"isolation.{name}", f"{kind} result differs between processes (built-before history or string-hash salt)",
+                         f"call #{c} ({kind}) of {t} differs from a fresh process (other string-hash salt) that built nothing else (configurations built "
                          f"first: {build if name != 'this_worker' else 'worker history'}): leaves {bad[:4]}")
                     break
         ctx.nontrivial(env, t, "isolation", tuple(build), tuple(key))
